@@ -1,6 +1,335 @@
+import GrafeoModel.Model.Fact
 import GrafeoModel.Driver.Proto
-/-! stream `fact` (stub; replaced by its builder) -/
-open Grafeo Grafeo.Proto
+
+/-! Stream `fact`: factorized chunks (`harness/src/fact.rs` documents the argument formats).
+Stateless lines.  `model` = what the model of the Rust code computes, `spec` = the same question
+answered on the flat relation the chunk denotes (`-` when the chunk is not one the constructors'
+contract covers, or when the op's arguments address a column that does not exist). -/
+open Grafeo Grafeo.Proto Grafeo.Fact
 namespace DriverFact
-def handle (_args : List String) : Option Out := none
+
+/-! ### parsing -/
+
+def parseVal (t : String) : Option (Option Int) :=
+  if t == "~" then some none else (t.toInt?).map some
+
+def parseVals (s : String) : Option (List (Option Int)) :=
+  if s == "-" then some [] else (s.splitOn ",").mapM parseVal
+
+def parseNats (s : String) : Option (List Nat) :=
+  if s == "-" then some [] else (s.splitOn ",").mapM (·.toNat?)
+
+/-- a level description `offs;col;col…` (`offs` = `-` for a flat level); at least one column,
+all columns of the same length -/
+def parseLevel (s : String) : Option (Option (List Nat) × List (List (Option Int))) :=
+  match s.splitOn ";" with
+  | o :: c :: cs => do
+    let offs ← if o == "-" then some none else (parseNats o).map some
+    let cols ← (c :: cs).mapM parseVals
+    let n := (cols.headD []).length
+    if cols.all (fun d => d.length == n) then some (offs, cols) else none
+  | _ => none
+
+inductive Built where
+  | panic
+  | ok (c : Chunk)
+
+/-- `E` = `FactorizedChunk::empty()`; otherwise levels separated by `/`: a flat first level goes
+through `with_flat_level`, every level with offsets through `add_level`. -/
+def buildChunk (s : String) : Option Built :=
+  if s == "E" then some (.ok Chunk.empty) else do
+    let lv ← (s.splitOn "/").mapM parseLevel
+    match lv with
+    | [] => none
+    | (o0, c0) :: rest =>
+      if rest.any (fun l => l.1.isNone) then none else
+      let start : Built := match o0 with
+        | none => .ok (withFlatLevel c0)
+        | some o => match addLevel Chunk.empty c0 o with
+          | none => .panic
+          | some c => .ok c
+      some (rest.foldl (fun b l => match b with
+        | .panic => .panic
+        | .ok c => match addLevel c l.2 (l.1.getD []) with
+          | none => .panic
+          | some c' => .ok c') start)
+
+inductive Pred where
+  | lt (k : Int) | le (k : Int) | gt (k : Int) | ge (k : Int) | eq (k : Int) | ne (k : Int)
+  | isNull | notNull | all
+
+def Pred.eval : Pred → Option Int → Bool
+  | .lt k, some v => decide (v < k)
+  | .le k, some v => decide (v ≤ k)
+  | .gt k, some v => decide (v > k)
+  | .ge k, some v => decide (v ≥ k)
+  | .eq k, some v => decide (v = k)
+  | .ne k, some v => decide (v ≠ k)
+  | .isNull, v => v.isNone
+  | .notNull, v => v.isSome
+  | .all, _ => true
+  | _, none => false
+
+def parsePred (s : String) : Option Pred :=
+  match s.splitOn ":" with
+  | ["null"] => some .isNull
+  | ["notnull"] => some .notNull
+  | ["all"] => some .all
+  | [o, k] => do
+    let k ← k.toInt?
+    match o with
+    | "lt" => some (.lt k) | "le" => some (.le k) | "gt" => some (.gt k)
+    | "ge" => some (.ge k) | "eq" => some (.eq k) | "ne" => some (.ne k)
+    | _ => none
+  | _ => none
+
+/-! ### rendering -/
+
+def valStr : Option Int → String
+  | none => "~"
+  | some i => toString i
+
+def colStr (d : List (Option Int)) : String :=
+  if d.isEmpty then "-" else joinWith "," (d.map valStr)
+
+def colsStr (cs : List (List (Option Int))) : String :=
+  if cs.isEmpty then "-" else joinWith "|" (cs.map colStr)
+
+def tupStr (ts : List (List Nat)) : String :=
+  if ts.isEmpty then "-" else joinWith ";" (ts.map fun t => joinWith "." (t.map toString))
+
+def totalCols (levels : List Level) : Nat := (levels.map fun l => l.cols.length).sum
+
+/-- what the harness prints for a flattened chunk: column count, row count (first column), columns -/
+def flatStr (cols : List (List (Option Int))) : String :=
+  s!"k={cols.length} n={(cols.headD []).length} {colsStr cols}"
+
+def rowsAsCols (k : Nat) (rows : List (List (Option Int))) : List (List (Option Int)) :=
+  (List.range k).map fun j => rows.map fun r => (r[j]?).join
+
+def specFlatStr (k : Nat) (rows : List (List (Option Int))) : String :=
+  if k == 0 then "k=0 n=0 -" else s!"k={k} n={rows.length} {colsStr (rowsAsCols k rows)}"
+
+def chunkStr (c : Chunk) : String := s!"{flatStr (flattenCols c)} lrc={c.lrc}"
+
+def specChunkStr (levels : List Level) : String :=
+  let rows := flatRows levels
+  s!"{specFlatStr (totalCols levels) rows} lrc={rows.length}"
+
+/-! ### decidable well-formedness (mirrors `wfLevels`) -/
+
+def wfChainB : Nat → List Level → Bool
+  | _, [] => true
+  | n, l :: ls => l.mults.length == n && l.groupCount == l.mults.sum && l.offs == some (prefixSums l.mults) &&
+      l.cols.all (fun d => d.length == l.groupCount) && wfChainB l.groupCount ls
+
+def wfB : List Level → Bool
+  | [] => true
+  | l0 :: rest => l0.cols.all (fun d => d.length == l0.groupCount) && wfChainB l0.groupCount rest
+
+/-- level 0 built by `add_level` on the empty chunk carries offsets: the contract also covers it when
+its offsets are the prefix sums of its multiplicities -/
+def wfAny (levels : List Level) : Bool :=
+  wfB levels && match levels with
+    | [] => true
+    | l0 :: _ => l0.offs.isNone || l0.offs == some (prefixSums l0.mults)
+
+def gcdN : Nat → Nat → Nat := Nat.gcd
+
+def fracStr : Option (Int × Nat) → String
+  | none => "~"
+  | some (s, n) =>
+    if n == 0 then "div0" else
+    let g := Nat.gcd s.natAbs n
+    if g == 0 then "0/1" else s!"{s / (g : Int)}/{n / g}"
+
+def ovStr : Option (Option Int) → String
+  | none => "~"
+  | some v => valStr v
+
+def aggStr (c : Chunk) (ci : Nat) : String :=
+  let sumS := match sumDeepest c ci with | none => "~" | some s => toString s
+  s!"count={c.lrc} cc={countColumn c ci} sum={sumS} avg={fracStr (avgDeepest c ci)} min={ovStr (minDeepest c ci)} max={ovStr (maxDeepest c ci)}"
+
+def specAggStr (levels : List Level) (ci : Nat) : String :=
+  let rows := denote levels
+  let vs := rows.map (lastVal ci)
+  s!"count={rows.length} cc={specCountCol vs} sum={specSum vs} avg={fracStr (specAvg vs)} min={valStr (specMin vs)} max={valStr (specMax vs)}"
+
+def aggSig (c : Chunk) (ci : Nat) : String :=
+  let vs := (denote c.levels).map (lastVal ci)
+  let parts : List String :=
+    (if c.lrc != (denote c.levels).length then ["fact-count"] else []) ++
+    (if countColumn c ci != specCountCol vs then ["fact-countcol"] else []) ++
+    (if sumDeepest c ci != some (specSum vs) then ["fact-sum"] else []) ++
+    (if fracStr (avgDeepest c ci) != fracStr (specAvg vs) then
+      [if vs.any Option.isNone then "fact-avg-divides-by-null-rows" else "fact-avg"] else []) ++
+    (if ovStr (minDeepest c ci) != valStr (specMin vs) then
+      [if vs.any Option.isNone then "fact-min-null-is-least" else "fact-min"] else []) ++
+    (if ovStr (maxDeepest c ci) != valStr (specMax vs) then ["fact-max"] else [])
+  if parts.isEmpty then "-" else joinWith "+" parts
+
+/-! ### graphs for the chain ops -/
+
+/-- `s>t` pairs; edge `i` (creation order) has id `i` -/
+def parseEdges (s : String) : Option (List (Nat × Nat)) :=
+  if s == "-" then some [] else
+    (s.splitOn ",").mapM fun e =>
+      match e.splitOn ">" with
+      | [a, b] => do
+        let a ← a.toNat?
+        let b ← b.toNat?
+        pure (a, b)
+      | _ => none
+
+/-- outgoing `(edge id, target)` of a node, in creation order; ids that are not nodes have none -/
+def adjOf (n : Nat) (edges : List (Nat × Nat)) (s : Nat) : List (Nat × Nat) :=
+  if s ≥ n then [] else
+    edges.zipIdx.filterMap fun (e, i) => if e.1 == s then some (i, e.2) else none
+
+def mkOut (model spec sig : String) : Out :=
+  if model == spec then { model := model, spec := spec } else { model := model, spec := spec, sig := sig }
+
+/-! ### chain ops -/
+
+structure GraphArgs where
+  adj : Nat → List (Nat × Nat)
+  srcs : List (Option Int)
+  hops : Nat
+
+def parseSrc (t : String) : Option (Option Int) :=
+  if t == "~" then some none else (t.toNat?).map fun n => some (n : Int)
+
+def parseGraph (n e s h : String) : Option GraphArgs := do
+  let n ← n.toNat?
+  let edges ← parseEdges e
+  if n > 64 || edges.any (fun p => p.1 ≥ n || p.2 ≥ n) then none else
+  let srcs ← if s == "-" then some [] else (s.splitOn ",").mapM parseSrc
+  let hops ← h.toNat?
+  if hops == 0 || hops > 6 then none else
+  some { adj := adjOf n edges, srcs := srcs, hops := hops }
+
+def chainRowsStr (hops : Nat) (rows : List (List (List (Option Int)))) (withLrc : Bool) : String :=
+  if rows.isEmpty then "none" else
+    let base := specFlatStr (1 + 2 * hops) (rows.map List.flatten)
+    if withLrc then s!"{base} lrc={rows.length}" else base
+
+def cmpOp (o : String) (k : Int) : Option (Option Int → Bool) :=
+  match o with
+  | "lt" => some (Pred.lt k).eval | "le" => some (Pred.le k).eval | "gt" => some (Pred.gt k).eval
+  | "ge" => some (Pred.ge k).eval | "eq" => some (Pred.eq k).eval | "ne" => some (Pred.ne k).eval
+  | _ => none
+
+/-- value at (level, column) of a denoted row; a missing level or column fails every comparison -/
+def entryVal (level col : Nat) (r : List (List (Option Int))) : Option (Option Int) :=
+  match r[level]? with
+  | some e => e[col]?
+  | none => none
+
+def handleChain (args : List String) : Option Out :=
+  match args with
+  | [op, n, e, s, h] =>
+    if op == "chain" || op == "chainflat" || op == "chainagg" then do
+      let g ← parseGraph n e s h
+      let res := chain g.adj g.srcs g.hops
+      let rows := flatChain g.adj g.srcs g.hops
+      match res with
+      | .err => some { model := "err" }
+      | .noResult =>
+        if op == "chainagg" then
+          some (mkOut "count=0 cc=0 sum=~ avg=~ min=~ max=~"
+            (if rows.isEmpty then "count=0 cc=0 sum=~ avg=~ min=~ max=~" else "rows") "fact-chain")
+        else some (mkOut "none" (chainRowsStr g.hops rows (op == "chain")) "fact-chain")
+      | .chunk c =>
+        if op == "chain" then some (mkOut (chunkStr c) (chainRowsStr g.hops rows true) "fact-chain")
+        else if op == "chainflat" then
+          some (mkOut (flatStr (flattenCols c)) (chainRowsStr g.hops rows false) "fact-chain")
+        else
+          let vs := rows.map (lastVal 1)
+          let sp := s!"count={rows.length} cc={specCountCol vs} sum={specSum vs} avg={fracStr (specAvg vs)} min={valStr (specMin vs)} max={valStr (specMax vs)}"
+          some (mkOut (aggStr c 1) sp "fact-chain-agg")
+    else none
+  | ["expand1", n, e, s] => do
+    let g ← parseGraph n e s "1"
+    let rows := flatChain g.adj g.srcs 1
+    let sp := specFlatStr 3 (rows.map List.flatten)
+    match expandCols g.adj g.srcs with
+    | none => some { model := "err" }
+    | some (offs, es, ts) =>
+      let c? := if es.isEmpty then some (withFlatLevel [g.srcs]) else addLevel (withFlatLevel [g.srcs]) [es, ts] offs
+      match c? with
+      | none => some { model := "panic" }
+      | some c => some (mkOut (flatStr (flattenCols c)) sp "fact-expand-op-no-edges-returns-sources")
+  | ["chainfilt", n, e, s, h, level, col, o, k, mat] => do
+    let g ← parseGraph n e s h
+    let level ← level.toNat?
+    let col ← col.toNat?
+    let k ← k.toInt?
+    let p ← cmpOp o k
+    let mat ← if mat == "0" then some false else if mat == "1" then some true else none
+    match chain g.adj g.srcs g.hops with
+    | .err => some { model := "err" }
+    | .noResult => some (mkOut "none" (chainRowsStr g.hops ((flatChain g.adj g.srcs g.hops).filter fun r =>
+        match entryVal level col r with | some v => p v | none => false) true) "fact-chain")
+    | .chunk c =>
+      -- the selection is stored in the chunk state and read by nobody; `materialize` re-copies the
+      -- deepest level with a constant-true predicate; the lazy chain hands its result out twice
+      let c' := if mat && level + 1 == c.levels.length then
+          (match filterDeepest c 0 (fun _ => true) with | some x => x | none => c) else c
+      let one := chunkStr c'
+      let rows := (flatChain g.adj g.srcs g.hops).filter fun r =>
+        match entryVal level col r with | some v => p v | none => false
+      let sp := chainRowsStr g.hops rows true
+      let sig := if one == sp then "fact-lazy-chain-yields-twice"
+        else "fact-filter-op-selection-not-applied+fact-lazy-chain-yields-twice"
+      some (mkOut s!"{one} ++ {one}" sp sig)
+  | _ => none
+
+
+def handle (args : List String) : Option Out :=
+  match args with
+  | ["flatten", ch] => do
+    match ← buildChunk ch with
+    | .panic => some { model := "panic" }
+    | .ok c =>
+      let m := chunkStr c
+      if wfAny c.levels then some (mkOut m (specChunkStr c.levels) "fact-flatten") else some { model := m }
+  | ["iter", ch] => do
+    match ← buildChunk ch with
+    | .panic => some { model := "panic" }
+    | .ok c =>
+      let pc := tupStr (pcRows c.levels)
+      let m := s!"ri={tupStr (riRows c.levels)} pc={pc} st={pc}"
+      let sp := tupStr (denoteIdx c.levels)
+      if wfAny c.levels then some (mkOut m s!"ri={sp} pc={sp} st={sp}" "fact-iter") else some { model := m }
+  | ["agg", ch, ci] => do
+    let ci ← ci.toNat?
+    match ← buildChunk ch with
+    | .panic => some { model := "panic" }
+    | .ok c =>
+      let m := aggStr c ci
+      if wfAny c.levels && (deepestCol c ci).isSome then some (mkOut m (specAggStr c.levels ci) (aggSig c ci))
+      else some { model := m }
+  | [op, ch, ci, pr] =>
+    if op == "filt" || op == "filtm" then do
+      let ci ← ci.toNat?
+      let p ← parsePred pr
+      match ← buildChunk ch with
+      | .panic => some { model := "panic" }
+      | .ok c =>
+        if op == "filtm" && (deepestCol c ci).isNone then none else
+        let m := match filterDeepest c ci p.eval with
+          | none => "none"
+          | some c' => chunkStr c'
+        if wfAny c.levels && (deepestCol c ci).isSome then
+          let rows := (denote c.levels).filter fun r => p.eval (lastVal ci r)
+          let flat := rows.map List.flatten
+          -- an empty result is `FactorizedChunk::empty()`: no columns
+          let sp := if rows.isEmpty then "k=0 n=0 - lrc=0"
+            else s!"{specFlatStr (totalCols c.levels) flat} lrc={rows.length}"
+          some (mkOut m sp "fact-filter")
+        else some { model := m }
+    else handleChain args
+  | _ => handleChain args
+
 end DriverFact
